@@ -109,7 +109,7 @@ def shrink(ctx, case, detail):
     """Greedy: drop targets, then uses entries, while the spec still fails on the implementation."""
     cfg = case["cfg"]
     def fails(c):
-        if not c["targets"]: return False
+        if not c["targets"] or ctx.shrink_expired(): return False
         impl = impl_edges(ctx, c)
         v = ctx.model.call("C10", G.cfg_val(c), impl)
         return bool(v[0]) and G.normalised(c) and not bool(v[3])
